@@ -117,6 +117,8 @@ func StartMockAPISecret(ae bool, fixedSecret string) *Env {
 	}
 	go access.API(closed, &wg, cfg)
 	waitPort(port)
+	RegisterString(u)
+	RegisterString(cfg.Target)
 	return &Env{Mode: "mock", Secret: secret, Addr: "127.0.0.1:" + strconv.Itoa(port), DS: ds, CS: cs, clock: &mockClock,
 		Cfg: Config{AE: ae, Host: u, Target: cfg.Target, Audience: cfg.Target, TTL: 30}}
 }
@@ -124,6 +126,8 @@ func StartMockAPISecret(ae bool, fixedSecret string) *Env {
 // StartRealRelay starts the whole relay (one per process) on the wall clock.
 func StartRealRelay(ae bool) *Env {
 	r := lib.StartRelay(lib.RelayOpts{AllowNoBookingID: ae, Secret: "acc-relay-secret"})
+	RegisterString(r.AccessURL)
+	RegisterString(r.Target)
 	u, _ := url.Parse(r.AccessURL)
 	return &Env{Mode: "real", Secret: r.Secret, Addr: u.Host, RelayWs: r.Target,
 		Cfg: Config{AE: ae, Host: r.AccessURL, Target: r.Target, Audience: r.Target, TTL: 30}}
